@@ -38,6 +38,7 @@ import EmitModel.Base.Sexp
 import EmitModel.Model.FileRecord
 import EmitModel.Model.OtlpRecords
 import EmitModel.Model.Term
+import EmitModel.Model.Timestamp
 
 namespace EmitModel.Driver.C13
 open EmitModel EmitModel.Encode EmitModel.Level
@@ -190,10 +191,15 @@ def val? : Sexp → Option PV
     pure (.tree (.seq fs) (← disp.str?))
   | _ => none
 
+/-- The RFC 3339 text the sinks print is the MODEL's (`Timestamp.fmtRfc3339`, the formatter the C15 theorems are about),
+not the text the case carries: a formatter that prints the wrong day shows as a different line. -/
 def ts? : Sexp → Option Ts
-  | .list [s, n, t] => do
+  | .list [s, n, _t] => do
     let n ← n.nat?
-    if n < 1000000000 then pure ⟨← s.nat?, n, ← t.str?⟩ else none
+    let s ← s.nat?
+    if n < 1000000000 then
+      pure ⟨s, n, String.ofList ((Timestamp.fmtRfc3339 none (s * 1000000000 + n)).map fun b => Char.ofNat b.toNat)⟩
+    else none
   | _ => none
 
 def extent? : Sexp → Option Extent
